@@ -181,12 +181,12 @@ func runC28(c *core.Check) {
 		}
 		okGuard := w.ifUnset && w.src == userFields[w.field]
 		if !okGuard {
-			themeFields[w.field] = true // must be followed by applyStyles at every call site
+			_ = themeFields // (call sites are judged by the generic helper inlining below)
 		}
 		c.PassTrivial("C28.user-last", "applyTheme:"+w.field, w.node.Pos(), fmt.Sprintf("guarded-by-unset=%v", okGuard))
 	}
 	// toShape: after every write to a user field (direct, or through applyTheme), applyStyles must follow on every path
-	checkLast := func(fi *core.FuncInfo, target, user types.Object, userFieldsHere map[string]string, inlineUser, inlineTheme string) {
+	checkLast := func(fi *core.FuncInfo, target, user types.Object, userFieldsHere map[string]string, inlineUser string) {
 		finfo := fi.Pkg.TypesInfo
 		fl := core.NewFlow(fi.Pkg, fi.Decl.Body)
 		direct := writesIn(fi, target, user)
@@ -249,13 +249,53 @@ func runC28(c *core.Check) {
 			}
 			judge(w.field, w.node, "default write")
 		}
-		if inlineTheme != "" {
-			for _, call := range callsIn(fi, false, inlineTheme) {
-				for f := range themeFields {
-					judge(f, call, "applyTheme")
+		// every other helper of the package that receives the target: its unguarded writes to user fields count
+		// as writes at the call site (one level of inlining), whatever the helper is called
+		ast.Inspect(fi.Decl.Body, func(n ast.Node) bool {
+			call, ok := n.(*ast.CallExpr)
+			if !ok {
+				return true
+			}
+			callee := core.CalleeOf(finfo, call)
+			if callee == nil || callee.Pkg() != fi.Pkg.Types || (inlineUser != "" && core.IsCallTo(finfo, call, inlineUser)) {
+				return true
+			}
+			h := c.P.Decl(callee)
+			if h == nil || h.Decl.Body == nil {
+				return true
+			}
+			sig := callee.Type().(*types.Signature)
+			var ht, hu types.Object
+			for ai, a := range call.Args {
+				if ai >= sig.Params().Len() {
+					break
+				}
+				switch core.ObjOf(finfo, a) {
+				case target:
+					ht = sig.Params().At(ai)
+				case user:
+					hu = sig.Params().At(ai)
 				}
 			}
-		}
+			if ht == nil {
+				return true
+			}
+			if hu == nil {
+				hu = ht // no user parameter: no write can be guarded by the user's value
+			}
+			seen := map[string]bool{}
+			for _, w := range writesIn(h, ht, hu) {
+				if w.user || userFieldsHere[w.field] == "" || seen[w.field] {
+					continue
+				}
+				if w.ifUnset && w.src == userFieldsHere[w.field] {
+					continue
+				}
+				seen[w.field] = true
+				judge(w.field, call, callee.Name())
+			}
+			return true
+		})
 	}
 	var shapeVar types.Object
 	ast.Inspect(toShape.Decl.Body, func(n ast.Node) bool {
@@ -267,7 +307,7 @@ func runC28(c *core.Check) {
 	if shapeVar == nil {
 		c.Broken("toShape: local shape not found")
 	} else {
-		checkLast(toShape, shapeVar, param(toShape, 0), userFields, "d2exporter.applyStyles", "d2exporter.applyTheme")
+		checkLast(toShape, shapeVar, param(toShape, 0), userFields, "d2exporter.applyStyles")
 	}
 	var connVar types.Object
 	ast.Inspect(toConn.Decl.Body, func(n ast.Node) bool {
@@ -289,7 +329,7 @@ func runC28(c *core.Check) {
 		if len(connUser) < 8 {
 			c.Fail("floor", "floor:C28.conn-user-fields", token.NoPos, fmt.Sprintf("only %d user-mapped connection fields found", len(connUser)))
 		}
-		checkLast(toConn, connVar, param(toConn, 0), connUser, "", "")
+		checkLast(toConn, connVar, param(toConn, 0), connUser, "")
 	}
 	c.Floor("C28.user-last", 10)
 
